@@ -5,8 +5,8 @@ from vlib.runner import Part, Violation
 from vlib import gen, refmodel as R, trace as T, tools, obs, evdoc, judge
 
 ID = "C19"
-VARIANTS = ["asan"]
-TARGETS = ["ovniemu", "ovnidump", "ovnitop", "ovnisort"]
+VARIANTS = ["asan", "fuzz"]
+TARGETS = ["ovniemu", "ovnidump", "ovnitop", "ovnisort", "emu"]
 LEVEL = "exploration"
 RULE = ("valid traces (model-guided histories over all models, optionally with unsorted regions) with 1-3 "
         "structure-aware mutations of stream.obs (flags nibble, jumbo bit, jumbo size at edge values, truncation at "
@@ -16,7 +16,10 @@ RULE = ("valid traces (model-guided histories over all models, optionally with u
         "truncated/empty file, CPU lists in any order with conflicts, malformed mark definitions); each mutant is "
         "given to ovniemu (-l, -b, -a), ovnidump (plain and -x), ovnitop and ovnisort (sort on a copy, -c, small "
         "-n), built with ASan+UBSan subset and the exact-size heap buffer hook.  Oracle: exit status 0 or 1, a "
-        "diagnostic when 1, no signal, no sanitizer report, CPU time < 10 s.  Non-trivial = the mutant still passes "
+        "diagnostic when 1, no signal, no sanitizer report, CPU time < 10 s.  Plus 16 libFuzzer instances (half from an "
+        "empty corpus, half seeded with valid streams) on the in-process target fuzz_stream (stream_load/stream_step/"
+        "emu_ev/model_event_print with in-target oracle: offset strictly increasing inside the stream, bounded step "
+        "count, every declared payload byte readable).  Non-trivial = the mutant still passes "
         "the stream header check and holds >= 1 event; distinct = input hash.")
 ASSUMPTIONS = ["UBSan arithmetic checks (signed overflow, shifts, float casts) are off: the property promises no crash/hang/out-of-bounds, not absence of arithmetic UB on hostile clocks",
                "a wall-clock overrun without CPU exhaustion is inconclusive, never a violation"]
@@ -330,6 +333,78 @@ def run(case, ctx):
     return {"nt": ntr, "cls": ["mut:%s:%s" % (m[0], m[1]) for m in case["muts"]]}
 
 
+# ---- in-process, coverage-guided (libFuzzer) ------------------------------------------
+
+def setup(ctx):
+    return {"fuzz_stream": ctx.b("fuzz").compile("fuzz_stream.c", "fuzz_stream", libs="emu", extra="-fsanitize=fuzzer,address")}
+
+
+def seed_streams():
+    P = T.P
+    out = []
+    out.append(T.obs_bytes({"events": [T.OHx(1, 0), T.plain("OB.", 2), T.mark("=", 3, 5, 0), T.plain("OHe", 9)]}))
+    out.append(T.obs_bytes({"events": [T.OHx(1, 0), T.type_create("V", 2, 1, "alpha"), T.ev("VTc", 3, P("II", 1, 1)),
+                                       T.ev("VTx", 4, P("II", 1, 0)), T.ev("VTe", 5, P("II", 1, 0)), T.plain("OHe", 9)]}))
+    out.append(T.obs_bytes({"events": [T.OHx(1, 0), T.jumbo("OB.", 2, b"x" * 100), T.OAs(3, 0), T.OAr(4, 0, 1),
+                                       T.plain("OF[", 5), T.plain("OF]", 6), T.plain("OHe", 9)]}))
+    return out
+
+
+def enum_fuzz(ctx):
+    for i in range(16):
+        yield {"inst": i}
+
+
+def run_fuzz(case, ctx):
+    exe = ctx.shared["fuzz_stream"]
+    d = ctx.newdir()
+    try:
+        if "input_hex" in case:
+            # replay of a saved crashing input
+            inp = os.path.join(d, "input")
+            open(inp, "wb").write(bytes.fromhex(case["input_hex"]))
+            r = tools.run([exe, "-detect_leaks=0", inp], cwd=d, env={"FUZZ_TMP": d, "ASAN_OPTIONS": "detect_leaks=0:log_path=%s/asan" % d}, cpu_s=60)
+            if r.kind != "ok":
+                raise Violation("fuzz_stream crashes on the saved input (%d bytes): %s" % (len(case["input_hex"]) // 2, _asan_log(d)))
+            return {"nt": True, "cls": ["fuzz:replay"]}
+        corp = os.path.join(d, "corpus")
+        art = os.path.join(d, "art")
+        os.makedirs(corp)
+        os.makedirs(art)
+        seeded = case["inst"] % 2 == 1
+        if seeded:
+            for i, b_ in enumerate(seed_streams()):
+                open(os.path.join(corp, "seed%d" % i), "wb").write(b_)
+        secs = 20 if ctx.tier == "quick" else 600
+        r = tools.run([exe, "-detect_leaks=0", "-max_total_time=%d" % secs, "-max_len=%d" % (700 if case["inst"] % 4 else 9000),
+                       "-seed=%d" % (1 + ctx.seed * 16 + case["inst"]), "-artifact_prefix=" + art + "/", corp],
+                      cwd=d, env={"FUZZ_TMP": d, "ASAN_OPTIONS": "detect_leaks=0:log_path=%s/asan" % d},
+                      cpu_s=secs * 3 + 60, wall_s=secs * 3 + 120)
+        crashes = [f for f in os.listdir(art) if f.startswith("crash-")]
+        n = len(os.listdir(corp))
+        ctx.stats.extra["fuzz_corpus_entries"] = ctx.stats.extra.get("fuzz_corpus_entries", 0) + n
+        ctx.stats.extra["fuzz_seconds"] = ctx.stats.extra.get("fuzz_seconds", 0) + secs
+        if crashes:
+            data = open(os.path.join(art, crashes[0]), "rb").read()
+            case["input_hex"] = data.hex()
+            raise Violation("fuzz_stream: in-target oracle or sanitizer tripped on a %d-byte stream: %s" % (len(data), _asan_log(d)))
+        return {"nt": n > 3, "cls": ["fuzz:seeded" if seeded else "fuzz:empty-corpus"], "key": "fuzz%d" % case["inst"],
+                "sample": {"libfuzzer_instance": case["inst"], "seconds": secs, "corpus_entries": n}}
+    finally:
+        ctx.rmdir(d)
+
+
+def _asan_log(d):
+    out = []
+    for f in os.listdir(d):
+        if f.startswith("asan"):
+            out.append(open(os.path.join(d, f), errors="replace").read())
+    txt = "\n".join(out)
+    lines = [l.strip() for l in txt.split("\n") if "ERROR" in l or "SUMMARY" in l or " in " in l][:6]
+    return " | ".join(lines)[:600] or "trap in target (offset / step bound oracle)"
+
+
 def parts(tier):
     return [Part("mutated-traces", run, strategy=lambda ctx: cases(), budget={"quick": 4000, "thorough": 40000},
-                 cap_s={"quick": 400, "thorough": 3400})]
+                 cap_s={"quick": 400, "thorough": 3400}),
+            Part("fuzz-stream", run_fuzz, enum=enum_fuzz, cap_s={"quick": 200, "thorough": 3000})]
